@@ -50,9 +50,9 @@
 //! `NASTY_STRINGS` entry, items/steps dropped; at most 40000 evaluations).
 //!
 //! ## Generators
-//! C02 (quick 4000 / thorough 120000 cases, interleaved 15:8:10:2:5): mostly-valid entries, nasty
+//! C02 (quick 4000 / thorough 250000 cases, interleaved 15:8:10:2:5): mostly-valid entries, nasty
 //! strings, defect injection (every validation defect singly or in pairs), no-timestamp (masked),
-//! sampled formatters (30% with an invalid `rate:`). C14 (quick 1500 / thorough 40000 sequences): steps
+//! sampled formatters (30% with an invalid `rate:`). C14 (quick 1500 / thorough 60000 sequences): steps
 //! drawn from valid / defect / split / entry-dimensions / unroutable report / failing writer / no
 //! timestamp / invalid rate, and one step of 1.1-1.6 MiB in exactly 3 (quick) resp. 48 (thorough)
 //! sequences. Generated multiplicities: 1, 2^k (k <= 52: for 2^53..2^62 `rate_to_n_alpha` rounds
@@ -1861,7 +1861,7 @@ fn main() {
         let mut gb = Bumps::default();
         match prop {
             Prop::C02 => {
-                let n: u64 = if args.thorough() { 120_000 } else { 4_000 };
+                let n: u64 = if args.thorough() { 250_000 } else { 4_000 };
                 let batch = 4_000;
                 let mut i = 0;
                 while i < n {
@@ -1871,7 +1871,7 @@ fn main() {
                 }
             }
             Prop::C14 => {
-                let n: u64 = if args.thorough() { 40_000 } else { 1_500 };
+                let n: u64 = if args.thorough() { 60_000 } else { 1_500 };
                 // exactly 48 (thorough) / 3 (quick) sequences contain a multi-megabyte step: the Lean side
                 // needs about 2 s for each of them
                 let huge_every: u64 = match args.extra.get("huge-every").and_then(|v| v.parse().ok()) {
